@@ -207,6 +207,19 @@ impl World {
                 self.next += 1;
                 if self.target.cast(id).is_ok() { "ok" } else { "err" }.to_string()
             }
+            // cluster builds: the same cast as a serialized message (`ActorCell::send_serialized`,
+            // the path a NodeSession uses for messages from a peer)
+            #[cfg(feature = "cluster")]
+            ["scast"] => {
+                let id = self.next;
+                self.next += 1;
+                let m = ractor::message::SerializedMessage::Cast {
+                    variant: String::new(),
+                    args: ractor::BytesConvertable::into_bytes(id),
+                    metadata: None,
+                };
+                if self.target.get_cell().send_serialized(m).is_ok() { "ok" } else { "err" }.to_string()
+            }
             ["drain"] => if self.target.drain().is_ok() { "ok" } else { "err" }.to_string(),
             ["stop"] => {
                 self.target.stop(None);
@@ -274,6 +287,14 @@ async fn run_case(log: &mut Log, st: &mut Stats, ops: &[String], linked: bool, t
     w.finish().await;
 }
 
+fn cast_op(rng: &mut Rng) -> &'static str {
+    if cfg!(feature = "cluster") && rng.chance(1, 2) {
+        "scast"
+    } else {
+        "cast"
+    }
+}
+
 fn gen_ops(rng: &mut Rng, st: &mut Stats) -> Vec<String> {
     let mut ops = Vec::new();
     let pre = rng.range(0, 6);
@@ -282,7 +303,7 @@ fn gen_ops(rng: &mut Rng, st: &mut Stats) -> Vec<String> {
         let k = rng.below(100);
         ops.push(
             match k {
-                0..=54 => "cast",
+                0..=54 => cast_op(rng),
                 55..=84 => {
                     drained = true;
                     "drain"
@@ -302,7 +323,7 @@ fn gen_ops(rng: &mut Rng, st: &mut Stats) -> Vec<String> {
         let k = rng.below(100);
         ops.push(
             match k {
-                0..=59 => "cast",
+                0..=59 => cast_op(rng),
                 60..=84 => "drain",
                 85..=94 => "stop",
                 _ => "kill",
